@@ -128,6 +128,86 @@ def to_sympy(t):
     raise KeyError(k)
 
 
+PROBE = {"a": 0.731, "b": 1.377, "c": 0.513}
+
+
+def probe_lookup(name):
+    """A fixed positive assignment, used only to tell "undefined whatever the assignment" ((a - a)**-2) from a real expression
+    when no drawn assignment is available."""
+    if name in PROBE:
+        return PROBE[name]
+    raise Unresolved(name)
+
+
+def validate(t, lookup=None):
+    """Domain gate, decided by this evaluator before anything is handed to Cirq: every symbol-free sub-tree must evaluate to a
+    finite real number (3/0, (-2)**0.5, 0**-1 as literals are not expressions of the property's domain), and the whole tree
+    must evaluate at ``lookup`` (default: the probe assignment).  Raises OutOfDomain."""
+    k = t[0]
+    if k not in ("s", "n", "i", "q", "pi"):
+        for c in (t[1] if k in ("+", "*") else t[1:]):
+            validate_const(c)
+    try:
+        v = ev(t, lookup or probe_lookup)
+    except Unresolved:
+        return
+    if isinstance(v, complex) and lookup is None:
+        raise OutOfDomain("complex constant")
+
+
+def validate_const(t):
+    k = t[0]
+    if k in ("s", "n", "i", "pi"):
+        return
+    if not names_of(t):
+        v = ev(t, None)
+        if isinstance(v, complex):
+            raise OutOfDomain("complex constant")
+        return
+    if k == "q":
+        return
+    for c in (t[1] if k in ("+", "*") else t[1:]):
+        validate_const(c)
+
+
+def depends_on(trees, fixed: dict, free) -> set:
+    """Symbols of ``free`` the value of some tree really depends on once ``fixed`` (name -> number) is substituted: found by
+    evaluating at a probe point and at two points that differ only in that symbol.  A lower bound (never claims a dependence
+    that is not there); probes outside the domain are skipped."""
+    free = list(free)
+    out = set()
+    base = {n: 0.731 + 0.323 * i for i, n in enumerate(sorted(free))}
+
+    def val(t, env):
+        def look(n):
+            if n in fixed:
+                return fixed[n]
+            if n in env:
+                return env[n]
+            raise Unresolved(n)
+        return complex(ev(t, look))
+
+    for s in free:
+        for t in trees:
+            if s not in names_of(t):
+                continue
+            try:
+                v0 = val(t, base)
+            except (OutOfDomain, Unresolved, Cycle):
+                continue
+            for alt in (base[s] * 1.9 + 0.17, base[s] + 0.61):
+                try:
+                    v1 = val(t, dict(base, **{s: alt}))
+                except (OutOfDomain, Unresolved, Cycle):
+                    continue
+                if abs(v1 - v0) > 1e-6 * (1 + abs(v0)):
+                    out.add(s)
+                    break
+            if s in out:
+                break
+    return out
+
+
 def _chk(v):
     if isinstance(v, complex):
         if not (math.isfinite(v.real) and math.isfinite(v.imag)) or abs(v) > LIMIT:
